@@ -20,6 +20,28 @@ enum Signer {
     Ours(Key),
 }
 
+/// Signers that cannot sign: the operation fails and must leave the package as it was.
+#[derive(Debug, Clone, Copy)]
+enum Failing {
+    ReturnsErr,
+    ReturnsGarbage,
+}
+
+impl rpm::signature::Signing for Failing {
+    type Signature = Vec<u8>;
+    fn sign(&self, mut data: impl std::io::Read, _t: rpm::Timestamp) -> Result<Vec<u8>, rpm::Error> {
+        let mut v = vec![];
+        let _ = data.read_to_end(&mut v);
+        match self {
+            Failing::ReturnsErr => Err(rpm::Error::KeyNotFoundError { key_ref: "hardware token unplugged".into() }),
+            Failing::ReturnsGarbage => Ok(b"this is not an OpenPGP packet".to_vec()),
+        }
+    }
+    fn algorithm(&self) -> rpm::signature::AlgorithmType {
+        rpm::signature::AlgorithmType::RSA
+    }
+}
+
 #[derive(Clone)]
 struct St {
     pkg: rpm::Package,
@@ -88,6 +110,7 @@ pub fn run(ctx: &Ctx) -> i32 {
 
     let max_depth = 6;
     let keys_ref = &keys;
+    let protected_attempts = ctx.thorough();
     let (stats, accs) = bfs(
         inits,
         max_depth,
@@ -110,6 +133,47 @@ pub fn run(ctx: &Ctx) -> i32 {
                         Ok(Ok(())) => out.push((label, St { pkg: p, last: Signer::Ours(*k), reparsed: false, start: s.start })),
                         Ok(Err(e)) => acc.viol(Violation::new("histories", format!("{} fails: {}", label, e), json!({"history": node.path, "op": label})).sig("clause", "operation-fails").sig("op", "sign")),
                         Err(pn) => acc.viol(panic_violation("histories", &pn, json!({"history": node.path, "op": label}))),
+                    }
+                }
+            }
+            // failed signing attempts: Err, and the package is exactly what it was
+            let before = bytes_of(&s.pkg);
+            let mut attempts: Vec<(String, rpm::Package, Result<Result<(), rpm::Error>, vlib::report::Panic>)> = vec![];
+            for f in [Failing::ReturnsErr, Failing::ReturnsGarbage] {
+                let mut p = s.pkg.clone();
+                let r = catch(|| p.sign_with_timestamp(f, TIMES[0]));
+                attempts.push((format!("failed-sign({:?})", f), p, r));
+            }
+            if protected_attempts {
+                for pass in [None, Some("wrong passphrase")] {
+                    let mut p = s.pkg.clone();
+                    let raw = std::fs::read(env.repo.join("tests/assets/signing_keys/secret_rsa3072_protected.asc")).unwrap_or_default();
+                    let mut signer = rpm::signature::pgp::Signer::load_from_asc_bytes(&raw).expect("protected key loads");
+                    if let Some(pw) = pass {
+                        signer = signer.with_key_passphrase(pw);
+                    }
+                    let r = catch(|| p.sign_with_timestamp(signer, TIMES[0]));
+                    attempts.push((format!("failed-sign(protected key, passphrase {:?})", pass), p, r));
+                }
+            }
+            for (label, p, r) in attempts {
+                match r {
+                    Err(pn) => acc.viol(panic_violation("histories", &pn, json!({"history": node.path, "op": label}))),
+                    Ok(Ok(())) => acc.count("a signer that cannot sign was accepted (successor not judged)"),
+                    Ok(Err(_)) => {
+                        if bytes_of(&p) != before {
+                            let mut path = node.path.clone();
+                            path.push(label.clone());
+                            acc.viol(
+                                Violation::new("histories", format!("{} returned an error but changed the package (last signer {:?})", label, s.last), json!({"start": starts[s.start].name, "history": path}))
+                                    .sig("clause", "failed-operation-changes-package")
+                                    .rank(node.depth as u64),
+                            );
+                            // keep exploring from the changed package: by the reference model nothing was signed or cleared
+                            out.push((label, St { pkg: p, last: s.last, reparsed: false, start: s.start }));
+                        } else {
+                            acc.count("failed signing attempt left the package unchanged");
+                        }
                     }
                 }
             }
@@ -202,7 +266,7 @@ pub fn run(ctx: &Ctx) -> i32 {
         "histories",
         "B",
         &format!(
-            "state graph of {{sign(k, t) for k ∈ {:?}, t ∈ {:?}; clear; write+parse}} from {} start packages (built empty / with files / rich gzip{}; foreign assets); states = (bytes of the real package, in-memory vs re-parsed, reference last-signer), deduplicated by SHA-256 of the full byte image; invariant in every state: each of the 4 public keys verifies ⇔ it signed last, signature_key_ids() = [that key's id] (error when unsigned), digests verify, main header and payload byte-identical to the start package. Search ends at the fixpoint or at depth {}. non-trivial = state in which the invariant was evaluated",
+            "state graph of {{sign(k, t) for k ∈ {:?}, t ∈ {:?}; clear; write+parse; signing attempts that fail (signer returns an error / returns bytes that are no OpenPGP packet; thorough: protected key without / with a wrong passphrase)}} from {} start packages (built empty / with files / rich gzip{}; foreign assets); states = (bytes of the real package, in-memory vs re-parsed, reference last-signer), deduplicated by SHA-256 of the full byte image; invariant in every state: each of the 4 public keys verifies ⇔ it signed last, signature_key_ids() = [that key's id] (error when unsigned), digests verify, main header and payload byte-identical to the start package; a failed signing attempt leaves the bytes unchanged. Search ends at the fixpoint or at depth {}. non-trivial = state in which the invariant was evaluated",
             keys.iter().map(|k| k.name()).collect::<Vec<_>>(), TIMES, starts.len(), if ctx.thorough() { " / sizes zstd / already signed" } else { "" }, max_depth
         ),
         acc,
